@@ -360,6 +360,51 @@ def run(ctx: Any, prog: Program) -> None:
         drops = [n for n in ast.walk(f_) if isinstance(n, ast.Assign) and any(isinstance(t, ast.Attribute) and t.attr == '_fileinfo' for t in ast.walk(n.targets[0]))]
         ctx.check('C15.F2', not drops, vtf, drops[0] if drops else f_, f'{qual} is reachable from compute_mipmaps(), which save() runs before the frames are loaded, and assigns `_fileinfo`: a texture that was read and saved again '
                   'without being touched loses its stored mipmaps (they are regenerated from the largest level instead)', func=qual, text=f'{qual} keeps pending file data')
+    # ---- F3 (grey formats): the intensity stored is the floor of the mean of R, G and B -----------------------------------------------------
+    # that is what the Cython codec computes (`(r + g + b) // 3`) and what the two implementations have to agree on.  The stored expression
+    # of the Python codec is interpreted (engine.minieval, private helpers inlined) for a pixel of every possible channel sum 0..765, in two
+    # channel orders; one disagreement is a concrete counterexample.
+    from engine.minieval import MiniEval as _ME, Unsupported as _Uns, Raised as _Rai
+    py_fns = {q: fl[0] for q, fl in py.all_funcs().items() if '.' not in q}
+    for gname, stride_ in (('save_i8', 1), ('save_ia88', 2)):
+        gf = py_fns.get(gname)
+        if gf is None:
+            ctx.shape('C15.F3', False, py, py.tree, f'{gname} not found', func=gname, text=f'{gname}: grey = floor mean')
+            continue
+        loops_ = [l for l in walk_no_nested(gf) if isinstance(l, ast.For) and isinstance(l.target, ast.Name)]
+        stores_ = [a for l in loops_ for a in ast.walk(l) if isinstance(a, ast.Assign) and len(a.targets) == 1 and isinstance(a.targets[0], ast.Subscript) and isinstance(a.targets[0].value, ast.Name)
+                   and a.targets[0].value.id == gf.args.args[1].arg]
+        if len(loops_) != 1 or len(stores_) != 1:
+            ctx.shape('C15.F3', False, py, gf, f'{gname}: one pixel loop with one store into the data buffer expected', func=gname, text=f'{gname}: grey = floor mean')
+            continue
+        lv_, pix_ = loops_[0].target.id, gf.args.args[0].arg
+        bad_ = None
+        try:
+            for s_ in range(766):
+                r_ = min(s_, 255)
+                g_ = min(s_ - r_, 255)
+                b_ = s_ - r_ - g_
+                for trip in ((r_, g_, b_), (b_, g_, r_)):
+                    # statements of the loop body before the store may define locals (r, g, b = ...)
+                    me_ = _ME({pix_: list(trip) + [255], lv_: 0}, py_fns)
+                    for st_ in loops_[0].body:
+                        if st_ is stores_[0]:
+                            break
+                        me_.stmt(st_)
+                    got_ = me_.ev(stores_[0].value)
+                    if got_ != s_ // 3:
+                        bad_ = (trip, got_, s_ // 3)
+                        break
+                if bad_:
+                    break
+        except (_Uns, _Rai, KeyError, IndexError, TypeError) as exc_:
+            ctx.shape('C15.F3', False, py, stores_[0], f'{gname}: stored intensity `{U(stores_[0].value)[:50]}` could not be interpreted ({exc_})', func=gname, text=f'{gname}: grey = floor mean')
+            continue
+        ctx.check('C15.F3', bad_ is None, py, stores_[0], (f'{gname} stores {bad_[1]} for the pixel {bad_[0]}; the floor of the mean of the three channels is {bad_[2]} (which is what the Cython codec writes): the two codecs '
+                  'give different files for the same image') if bad_ else 'intensity = (r + g + b) // 3 for every channel sum', func=gname, text=f'{gname}: grey = floor mean')
+    cy_txt = '\n'.join(ln.text for fn_ in ('save_i8', 'save_ia88') for ln in PyxFile(prog, '_cy_vtf_readwrite.pyx').func(fn_).body)
+    ctx.shape('C15.F3', cy_txt.count('// <uint_fast16_t>3') + cy_txt.count('// 3') >= 2, None, None, 'the Cython grey codecs divide the channel sum by 3 (floor)', file='src/srctools/_cy_vtf_readwrite.pyx', func='save_i8', text='Cython grey = floor mean')
+
     # ---- F3 --------------------------------------------------------------------------------------------------
     table = fmt_table(vtf)
     helpers: Dict[str, Tuple[List[str], List[ast.stmt]]] = {}
@@ -901,6 +946,8 @@ def accepted_region(test: ast.AST, coords: Tuple[str, str] = ('x', 'y')) -> Dict
 
 
 MUTANTS: List[Dict[str, Any]] = [
+    {'id': 'grey_by_multiply_shift', 'file': '_py_vtf_readwrite.py', 'find': "        data[offset] = (\n            pixels[4 * offset] +\n            pixels[4 * offset + 1] +\n            pixels[4 * offset + 2]\n        ) // 3", 'replace': "        data[offset] = ((\n            pixels[4 * offset] +\n            pixels[4 * offset + 1] +\n            pixels[4 * offset + 2]\n        ) * 171) >> 9", 'expect': 'C15.F3'},
+    {'id': 'ok_grey_by_multiply_shift_exact', 'file': '_py_vtf_readwrite.py', 'find': "        data[offset] = (\n            pixels[4 * offset] +\n            pixels[4 * offset + 1] +\n            pixels[4 * offset + 2]\n        ) // 3", 'replace': "        data[offset] = ((\n            pixels[4 * offset] +\n            pixels[4 * offset + 1] +\n            pixels[4 * offset + 2]\n        ) * 43691) >> 17", 'expect': None, 'refuse_ok': True},
     {'id': 'read_keeps_raw_particle_sheet', 'file': 'vtf.py', 'find': "                sheet_data = vtf.resources.pop(ResourceID.PARTICLE_SHEET).data", 'replace': "                sheet_data = vtf.resources[ResourceID.PARTICLE_SHEET].data", 'expect': 'C15.F7'},
     {'id': 'ok_read_deletes_raw_particle_sheet', 'file': 'vtf.py', 'find': "                sheet_data = vtf.resources.pop(ResourceID.PARTICLE_SHEET).data", 'replace': "                sheet_data = vtf.resources[ResourceID.PARTICLE_SHEET].data\n                del vtf.resources[ResourceID.PARTICLE_SHEET]", 'expect': None},
     {'id': 'ctor_frames_fromkeys_shared', 'file': 'vtf.py', 'find': "            for frame in range(frames):\n                for cube_or_depth in depth_seq:\n                    self._frames[frame, cube_or_depth, mip_count] = Frame(width, height)\n", 'replace': "            self._frames.update(dict.fromkeys(itertools.product(range(frames), depth_seq, [mip_count]), Frame(width, height)))\n", 'expect': 'C15.F2'},
